@@ -326,6 +326,19 @@ theorem parse_complete {f : Filter} {s : Bytes} (h : GLib f s) : ∃ t, parseO s
     unfold parseO filtexpr
     rw [alt_right (filter_err_of_head _ hne), ht]; rfl
 
+theorem parse_some_iff (s : Bytes) (t : Tag) : parse s = some t ↔ parseO s = .ok t := by
+  unfold parse
+  cases h : parseO s <;> simp [Outcome.toOption]
+
+/-- a string-level invariant of the language is a reason for rejection -/
+theorem reject_of_inv {inv : Bytes → Bool} (hinv : ∀ f s, GLib f s → inv s = true) (s : Bytes)
+    (h : inv s = false) : parse s = none := by
+  cases hp : parse s with
+  | none => rfl
+  | some t =>
+    obtain ⟨f, hg, _⟩ := parse_sound ((parse_some_iff s t).mp hp)
+    rw [hinv f s hg] at h; cases h
+
 theorem parseO_total (s : Bytes) : parseO s ≠ .panic := by
   unfold parseO finish
   have := np_filtexpr s
